@@ -36,6 +36,7 @@ pub const SHAPES: &[&str] = &[
     "stmt-run",
     "postfix-paren-nest",
     "wide-list",
+    "wide-map-mixed-keys",
 ];
 
 /// shapes whose parse/exec/render time is quadratic in n on the unchanged tree (sub-tree
@@ -75,6 +76,9 @@ pub fn ladder_input(shape: &str, n: usize) -> String {
         "stmt-run" => "1;".repeat(n),
         "postfix-paren-nest" => format!("{}1{}", "(".repeat(n), ")++".repeat(n)),
         "wide-list" => format!("[{}1]", "1,".repeat(n)),
+        // number keys and computed keys that start with a digit, interleaved (whatever orders or
+        // groups the entries of a large map for rendering meets both kinds)
+        "wide-map-mixed-keys" => format!("{{{}}}", (0..n).map(|i| if i % 2 == 0 { format!("{}:{}", i, i) } else { format!("{}+1:{}", i * 10, i) }).collect::<Vec<_>>().join(",")),
         _ => unreachable!(),
     }
 }
@@ -159,10 +163,10 @@ impl Prop for C01 {
         });
         stages.push(Stage {
             name: "after-odd-registration".into(),
-            len: 11,
+            len: 15,
             chunk: 1,
             timeout: Duration::from_secs(60),
-            what: "fresh process: one register_infix_op call with a precedence outside the documented domain (0, negative, > 10^9, i32 extremes; what that call does is its own business), then every string of <= 2 fragments; cases 8-10: `?`, `:` and `not` registered as ordinary infix operators, then every sequence of <= 5 tokens over {1, x, +, *, ?, :, (, ), not, -}".into(),
+            what: "fresh process: one register_infix_op call with a precedence outside the documented domain (0, negative, > 10^9, i32 extremes; what that call does is its own business), then every string of <= 2 fragments; cases 8-10: `?`, `:` and `not` registered as ordinary infix operators, then every sequence of <= 5 tokens over {1, x, +, *, ?, :, (, ), not, -}; cases 11-14: one infix operator / function / prefix / postfix operator registered 200,000 times over (a fresh handler each time, one that rejects ill-typed operands), then well-typed and ill-typed uses of it".into(),
         });
         let sw = sweeps(tier);
         Plan {
@@ -222,6 +226,35 @@ impl Prop for C01 {
             let small = Strings::new(FRAGMENTS, 2);
             for i in a..b {
                 out.at(i);
+                if i >= 11 {
+                    // a long registration history of ONE name: whatever a registration keeps of
+                    // its predecessors (a chain, a list) is 200,000 long by now
+                    use expression_engine::Value;
+                    let kind = ["infix", "function", "prefix", "postfix"][(i - 11) as usize];
+                    let r = engine::guarded(|| {
+                        for _ in 0..200_000 {
+                            match kind {
+                                "infix" => expression_engine::register_infix_op("zzmany", 115, InfixOpType::CALC, InfixOpAssociativity::LEFT, std::sync::Arc::new(|a: Value, b: Value| Ok(Value::from(a.decimal()? + b.decimal()?)))),
+                                "function" => expression_engine::register_function("zzmany", std::sync::Arc::new(|v: Vec<Value>| v.into_iter().next().unwrap_or(Value::None).decimal().map(Value::from))),
+                                "prefix" => expression_engine::register_prefix_op("zzmany", std::sync::Arc::new(|a: Value| a.decimal().map(Value::from))),
+                                _ => expression_engine::register_postfix_op("zzmany", std::sync::Arc::new(|a: Value| a.decimal().map(Value::from))),
+                            }
+                        }
+                        Ok(())
+                    });
+                    let name = format!("after-odd-registration[{} registered 200000 times -> {}]", kind, r.class());
+                    let progs: &[&str] = match kind {
+                        "infix" => &["1 zzmany 2", "'a' zzmany 2", "1 zzmany [2]", "true zzmany false", "x = 1 zzmany 2 zzmany 'c'"],
+                        "function" => &["zzmany(1)", "zzmany('a')", "zzmany()", "zzmany([1], 2)"],
+                        "prefix" => &["zzmany 1", "zzmany 'a'", "zzmany zzmany true"],
+                        _ => &["1 zzmany", "'a' zzmany", "[1] zzmany zzmany"],
+                    };
+                    for p in progs {
+                        check_string(p, &name, out);
+                    }
+                    out.nontrivial.insert(hash64(&name));
+                    continue;
+                }
                 if i >= 8 {
                     // grammar punctuation / keywords registered as ordinary infix operators
                     let word = ["?", ":", "not"][(i - 8) as usize];
